@@ -1220,16 +1220,48 @@ fn gen_long_expr(ch: &mut Choices, cfg: &Cfg, short: bool) -> (OpeningHoursExpre
             (g, text)
         })
         .collect();
-    let n = if short { 2 + ch.draw(5) } else { [12u32, 15, 16, 17, 18, 24, 31, 32, 33, 48, 63, 64][ch.draw(12) as usize] + ch.draw(4) };
+    // lengths bracket 16 / 32 / 64 and, for a quarter of the long expressions, 100 / 128 / 200 / 256 (S-C07-i
+    // loses the 101st of a run of canonical rules)
+    let n = if short {
+        2 + ch.draw(5)
+    } else if ch.chance(75) {
+        [12u32, 15, 16, 17, 18, 24, 31, 32, 33, 48, 63, 64][ch.draw(12) as usize] + ch.draw(4)
+    } else {
+        [96u32, 99, 100, 101, 101, 102, 103, 127, 128, 129, 130, 199, 200, 201, 202, 255, 256, 257][ch.draw(18) as usize]
+    };
+    // the last rule of a third of the long expressions is a rule of its own (not one of the pool): dropping or
+    // misplacing exactly that rule changes the meaning
+    let own_last: Option<(GenRule, String)> = if !short && ch.chance(35) {
+        let mut text = String::new();
+        let g = gen_rule(ch, cfg, &mut text, RuleOperator::Normal);
+        Some((g, text))
+    } else {
+        None
+    };
     let mut out = String::new();
     let mut rules: Vec<RuleSequence> = Vec::new();
     let mut prev_ends_with_monthday = false;
+    let mut motif: Vec<(usize, usize)> = Vec::new();
     for i in 0..n {
-        let (g, text) = &pool[ch.draw(m as u32) as usize];
+        // expressions of more than 70 rules repeat a drawn motif of 9 (rule, operator) pairs: the choice budget stays
+        // small and a run of a hundred rules without a fallback rule is common
+        let (pick, op_draw) = if n <= 70 || i < 9 {
+            let p = (ch.draw(m as u32) as usize, ch.weighted(&if short { [45, 40, 15] } else { [70, 25, 5] }));
+            if i < 9 {
+                motif.push(p);
+            }
+            p
+        } else {
+            motif[i as usize % motif.len()]
+        };
+        let (g, text) = match &own_last {
+            Some(own) if i + 1 == n => own,
+            _ => &pool[pick],
+        };
         let mut operator = if i == 0 {
             RuleOperator::Normal
         } else {
-            match ch.weighted(&if short { [45, 40, 15] } else { [70, 25, 5] }) {
+            match op_draw {
                 0 => RuleOperator::Normal,
                 1 => RuleOperator::Additional,
                 _ => RuleOperator::Fallback,
